@@ -68,6 +68,7 @@ Definition fun2core_tags (p : fcprog) (ncmp : nat) (has_exp : bool) : string :=
   "nt" ++ (if shadowing_risk_prog p then " shadow-risk" else " no-shadow")
        ++ (if effect_sequenced p then " sequenced" else " unsequenced")
        ++ (if has_exp then " expected-ok" else "")
+       ++ (if main_in_fragment p then " proved-fragment" else "")
        ++ " cmp" ++ n_to_string (N.of_nat ncmp)
        ++ " size" ++ n_to_string (N.log2 (size_fcprog p)).
 
